@@ -8,7 +8,7 @@ import threading
 
 import numpy as np
 
-WRITERS = ["sweep", "nsga2", "nsga2_threads", "epsmoea", "omopso", "smpso", "bulk_sync_all", "sweep_contended"]
+WRITERS = ["sweep", "nsga2", "nsga2_threads", "epsmoea", "omopso", "smpso", "bulk_sync_all", "sweep_contended", "sweep_resumed"]
 N_PARAMS = 2
 
 
@@ -109,6 +109,29 @@ def run_writer(kind, path, retlog, seed, on_event=None, marker=None):
             g.init([[-0.9 + 0.3 * i, 0.8 - 0.25 * i] for i in range(6)])
             a = SweepAlgorithm(p, generator=g)
             a.run()
+        elif kind == "sweep_resumed":
+            # a first session records four designs and ends; a NEW process (design ids start again at 0 there, as in any fresh
+            # interpreter) opens the same file in the default write mode and goes on: what the first session had synchronised
+            # stays in the file, whatever the second session does and wherever it dies.  Crash points count in the second session.
+            from artap.algorithm_sweep import SweepAlgorithm
+            from artap.operators import CustomGenerator
+            armed[0] = False
+            Individual.counter = 0
+            g = CustomGenerator(p.parameters)
+            g.init([[-0.8 + 0.4 * i, 0.7 - 0.3 * i] for i in range(4)])
+            SweepAlgorithm(p, generator=g).run()
+            os.write(fd, ("SESSION-END %s\n" % json.dumps([i.id for i in p.individuals])).encode())
+            del g, store
+            Individual.counter = 0
+            p2 = hooks.make_problem(n=N_PARAMS, m=2, bounds=[[-1.0, 1.0]] * N_PARAMS, criteria=["minimize", "minimize"],
+                                    fn=objective, name="crash-writer",
+                                    entry_gate=lambda c: ev("objective:enter"), exit_gate=lambda c: ev("objective:exit"))
+            p2.data_store = SqliteDataStore(p2, database_name=path)
+            armed[0] = True
+            g2 = CustomGenerator(p2.parameters)
+            g2.init([[-0.9 + 0.3 * i, 0.8 - 0.25 * i] for i in range(5)])
+            SweepAlgorithm(p2, generator=g2).run()
+            p = p2
         elif kind == "nsga2":
             a = insitu.make("nsga2", p, 4, 3)
             a.run()
@@ -159,6 +182,22 @@ def read_retlog(retlog):
     return out
 
 
+def earlier_session_ids(retlog):
+    """ids of designs recorded by a session that had ended before the (crashing) session opened the file"""
+    ids = set()
+    try:
+        with open(retlog, "rb") as f:
+            for line in f.read().decode(errors="replace").split("\n"):
+                if line.startswith("SESSION-END "):
+                    try:
+                        ids.update(json.loads(line[12:]))
+                    except ValueError:
+                        pass
+    except FileNotFoundError:
+        pass
+    return ids
+
+
 def verify(ctx, path, retlog, wit):
     """post-mortem on the database file; returns True if everything held"""
     import sqlite3
@@ -196,6 +235,7 @@ def verify(ctx, path, retlog, wit):
                           wit({"logged": rt, "row": {"vector": row.vector, "costs": row.costs}}))
             return False
     # no row holds a partially written individual
+    earlier = earlier_session_ids(retlog)
     for i, row in rows.items():
         st = row.state
         vec = [float(v) for v in row.vector]
@@ -205,7 +245,7 @@ def verify(ctx, path, retlog, wit):
         why = None
         if len(vec) != N_PARAMS:
             ok, why = False, "vector length"
-        elif st not in ("evaluated", "empty"):
+        elif st not in ("evaluated", "empty") and not (st is None and i in earlier):
             ok, why = False, "state %r persisted" % st
         elif costs or cs:
             if costs != [float(v) for v in objective(vec)]:
@@ -214,6 +254,11 @@ def verify(ctx, path, retlog, wit):
                 ok, why = False, "signed costs inconsistent with costs"
         elif st == "evaluated":
             ok, why = False, "evaluated without costs"
+        if st is None and i in earlier:
+            # a design loaded from the file by a later session carries its state as text; the library writes such a state back as
+            # null (sync_all at the end of the later session).  Not a torn write, and the state is not among the fields C10 names:
+            # counted, not judged (vector, costs and signed costs of such a row are judged like any other)
+            ctx.count("rows_of_an_earlier_session_rewritten_without_state")
         if not ok:
             ctx.violation("crash/partial_row", "a row holds a partially written individual (%s)" % why,
                           wit({"id": i, "state": st, "vector": vec, "costs": costs, "costs_signed": cs}))
